@@ -37,6 +37,7 @@ fn nontrivial(table: &str, r: &[i64]) -> bool {
             4 | 8 => r[7] == 1,
             5 | 15 => r[5] == 1,
             6 => r[2] == 1,
+            7 | 17 => r[6] == 1,
             _ => true,
         },
         _ => true,
@@ -62,7 +63,7 @@ fn class_of(table: &str, r: &[i64]) -> String {
     match (table, r[0]) {
         ("serde", 0) => format!("int.form{}", r[2]),
         ("serde", 1) => "int.primitive".to_string(),
-        ("serde", 7) => format!("roundtrip.way{}", r[1] / 100),
+        ("serde", 7) | ("serde", 17) => format!("roundtrip.way{}", r[1] / 100),
         ("serde", k) => format!("kind{}", k),
         ("ints", k) => format!("kind{}", k),
         _ => "row".to_string(),
